@@ -128,7 +128,7 @@ def listed_of(items, kind):
 
 
 def blank(act):
-    return {"act": act, "status": "OK", "name": [], "name2": [], "ref": [], "pat": [], "lsub": False,
+    return {"act": act, "status": "OK", "name": [], "name2": [], "ref": [], "pat": [], "pats": [[]], "lsub": False,
             "listed": [], "dup": False, "probe": False, "nm": {"slashes": 0, "comps": []},
             "outside_changed": False, "leaked": False, "slot": "", "enc": "", "text": ""}
 
@@ -141,9 +141,13 @@ async def run_history(w: NsWorld, steps, events):
     for st in steps:
         act = st["act"]
         ev = blank(act)
-        for k in ("name", "name2", "ref", "pat", "lsub"):
+        for k in ("name", "name2", "ref", "pat", "pats", "lsub"):
             if k in st:
                 ev[k] = st[k]
+        if act in ("List", "Lsub"):
+            ev["pats"] = st.get("pats") or [st["pat"]]
+        else:
+            ev["pats"] = [[]]
         if act == "Restart":
             await w.restart()
             await w.open("A")
@@ -156,8 +160,12 @@ async def run_history(w: NsWorld, steps, events):
         cmd = {"Create": b"CREATE " + n1, "Delete": b"DELETE " + n1, "Rename": b"RENAME " + n1 + b" " + n2,
                "Subscribe": b"SUBSCRIBE " + n1, "Unsubscribe": b"UNSUBSCRIBE " + n1}.get(act)
         if act in ("List", "Lsub"):
-            cmd = (b"LSUB " if act == "Lsub" else b"LIST ") + \
-                render_name(unchars(st["ref"])) + b" " + render_name(unchars(st["pat"]))
+            pats = ev["pats"]
+            if len(pats) > 1:
+                ptxt = b"(" + b" ".join(render_name(unchars(p)) for p in pats) + b")"
+            else:
+                ptxt = render_name(unchars(pats[0]))
+            cmd = (b"LSUB " if act == "Lsub" else b"LIST ") + render_name(unchars(st["ref"])) + b" " + ptxt
         res = await w.cmd("A", cmd, settle=0.02)
         ev["status"] = res.status if res.status in ("OK", "NO", "BAD") else "NONE"
         ev["text"] = (res.tagged or {}).get("text", "")[:80]
